@@ -66,14 +66,14 @@ class Case:
             'isa': self.isa, 'files': self.files, 'main': self.main, 'start': self.start,
             'end': self.end, 'fill': self.fill, 'pretty': self.pretty, 'incdirs': list(self.incdirs),
             'defines': list(self.defines), 'binary': self.binary, 'preseed': self.preseed,
-            'tag': self.tag,
+            'tag': self.tag, 'isa_yaml': self.isa_yaml,
         }
 
     @classmethod
     def from_json(cls, d):
         return cls(d['isa'], d['files'], d.get('main', 'main.asm'), d.get('start', 0), d.get('end'),
                    d.get('fill', 0), d.get('pretty'), d.get('incdirs', ()), d.get('defines', ()),
-                   d.get('binary', True), d.get('preseed', False), d.get('tag'))
+                   d.get('binary', True), d.get('preseed', False), d.get('tag'), d.get('isa_yaml', False))
 
 
 class Outcome:
@@ -159,6 +159,7 @@ def _materialize(case: Case, root: str):
     # ISA definition: JSON (AssemblerModel accepts .json) unless the case asks for YAML
     if case.isa_yaml:
         import yaml
+        _int_keys(case.isa)
         cfg = os.path.join(root, 'isa.yaml')
         with open(cfg, 'w') as f:
             yaml.safe_dump(case.isa, f)
@@ -188,6 +189,20 @@ def _materialize(case: Case, root: str):
         with open(out, 'wb') as f:
             f.write(SENTINEL)
     return work, asm, cfg, out, pp
+
+
+def _int_keys(node):
+    """A case that went through JSON (cross-check, replay) has lost the integer keys of numeric
+    enumeration dictionaries; YAML-tagged cases get them back before the definition is written."""
+    if isinstance(node, dict):
+        for k, v in list(node.items()):
+            if k == 'value_dict' and isinstance(v, dict) and all(isinstance(x, str) and x.lstrip('-').isdigit() for x in v):
+                node[k] = {int(x): y for x, y in v.items()}
+            else:
+                _int_keys(v)
+    elif isinstance(node, list):
+        for v in node:
+            _int_keys(v)
 
 
 def _collect(status, detail, out, pp, case, stdout, work=None):
